@@ -6,7 +6,7 @@ git -C $TRY_REPO checkout -q --detach $(git -C /repo rev-parse HEAD)
 for s in "$@"; do
   id=${s%%-*}
   st=$(date +%s)
-  out=$(/verif/tools/try_mutation.sh $id /verif/seeded/$s/patch.diff 2>&1)
+  out=$(/verif/tools/try_mutation.sh $id /verif/seeded/$s/patch.diff $TRY_ARGS 2>&1)
   en=$(date +%s)
   if echo "$out" | grep -q "^exit=1"; then r=CAUGHT; else r=MISSED; fi
   echo "$s $r by=$id t=$((en-st))s $(echo "$out" | grep counterexample | head -1 | cut -c1-200)" | tee -a ${SWEEP_LOG:-/root/sweep_r5.log}
